@@ -103,7 +103,7 @@ def make_config(rng, profile, tier):
             top = ['+', top, ['*', ['gascat', 1, rng.choice(ALTS)], ['var', 'x1']]]
     return {'sizes': sizes, 'cats': cats, 'top': top, 'helpers': helpers, 'nseg': nseg,
             'max_seg': rng.choice([1, 2, 5]), 'data_seed': rng.randrange(1 << 30),
-            'ctrl_style': rng.choice(['plain', 'plain', 'case'])}
+            'ctrl_style': rng.choice(['plain', 'plain', 'case']), 'seg_many': rng.random() < 0.4}
 
 
 def make_ops(rng, cfg, profile, tier):
@@ -199,7 +199,8 @@ class Session:
         # helpers
         self.segs = []
         if cfg['nseg'] >= 1:
-            self.segs.append(('s0', {1: 'low', 2: 'mid', 3: 'high'}))
+            # several values of the variable may share one category (and so one parameter)
+            self.segs.append(('s0', {1: 'low', 2: 'mid', 3: 'mid'} if cfg.get('seg_many') else {1: 'low', 2: 'mid', 3: 'high'}))
         if cfg['nseg'] >= 2:
             self.segs.append(('s1', {0: 'no', 1: 'yes'}))
         self.seg_tuples = tuple(DiscreteSegmentationTuple(variable=v, mapping=m) for v, m in self.segs)
